@@ -1,5 +1,6 @@
 import SockModel.Model.ToDosLemmas
 import SockModel.Spec.C06
+import SockModel.Generated.Funcs
 /-!
 # C06  ToDo scheduling: never early, in due order, exactly once, cancellable, shiftable
 
@@ -211,3 +212,44 @@ example : (RefSched.replay true 10 {} {}
 example : (((({} : RefSched.SpSt).user (.new 1 1000 [])).user (.new 2 1000 [])).ran 2 1000).toOption.isNone := by decide
 
 end SockModel.ToDos
+
+/-! ## Source-derived tie (DESIGN.md §0.7)
+
+`SockModel.Gen.*` (Generated/Funcs.lean) is regenerated on every run by tools/cxx2lean.py from the clang AST of
+the CURRENT /repo/src: WhenBefore::operator() (todo_impl.cpp) and the due test of StepTodos (driver_impl.cpp).
+Each theorem below states that the generated function and the hand-written model function agree for ALL
+arguments; a change of the C++ function changes the generated definition and the theorem stops checking. -/
+namespace SockModel.Props.C06
+open SockModel SockModel.Deadline SockModel.ToDos
+
+/-- `ToDos::Insert` is `emplace(find_if(begin(), end(), WhenBefore{todo->when}), todo)` -/
+theorem tie_insert_whenBefore (l : List Entry) (e : Entry) :
+    ToDos.insert l e =
+      l.takeWhile (fun x => !Gen.WhenBefore_call e.when x.when) ++
+        e :: l.dropWhile (fun x => !Gen.WhenBefore_call e.when x.when) := by
+  induction l with
+  | nil => rfl
+  | cons x xs ih =>
+    simp only [ToDos.insert, List.takeWhile_cons, List.dropWhile_cons, Gen.WhenBefore_call]
+    by_cases h : e.when < x.when <;> simp [h, ih, Gen.WhenBefore_call]
+
+theorem tie_stepTodos_due (fuel : Nat) (d : Deadline) (s : St) (front : Entry) (rest : List Entry)
+    (h : s.todos = front :: rest) :
+    stepTodos (fuel + 1) d s =
+      if Gen.StepTodos_notDue front.when d.now then
+        (Gen.MinDuration (front.when - d.now) d.remaining, s)
+      else
+        let s1 := { s with todos := rest, log := .ran front.id front.when d.now rest front.seq :: s.log }
+        let s2 := (s.body front.id).foldl applyOp s1
+        let d' := d.tick s2.now
+        if s2.todos.isEmpty then (d'.remaining, s2)
+        else if d'.timeLeft then stepTodos fuel d' s2
+        else (0, s2) := by
+  have hm : ∀ l r : Int, Gen.MinDuration l r = minDuration l r := by
+    intro l r
+    simp only [Gen.MinDuration, minDuration, toMs, nsPerMs]
+    repeat' split
+    all_goals omega
+  simp only [stepTodos, h, Gen.StepTodos_notDue, hm]
+  by_cases hd : front.when - d.now > 0 <;> simp
+end SockModel.Props.C06
